@@ -30,7 +30,7 @@ CLASS_LAYER = [PA + 'Pauli.__matmul__#Pauli', PA + 'Pauli.__neg__', PA + 'Pauli.
                'pyclifford/circuit.py::CliffordGate.forward#map_global'] + GATES[3:] + LOCAL_GATES + LOCAL_STATE + \
               [PA + '%s.__rmul__#%s' % (c, t) for c in ('Pauli', 'PauliList') for t in ('1', 'i', 'm1', 'mi')] + \
               [PA + 'pauli#codes', PA + 'pauli#chars', PA + 'pauli#str', PA + 'PauliList.__getitem__#mask', PA + 'PauliList.__getitem__#slice', PA + 'PauliList.__getitem__#index'] + \
-              RANDOM_STATE + RANDOM_CLIFFORD[:2] + CASTS + POLY_SEL + MBACK + ['pyclifford/circuit.py::CliffordGate.copy#generator', 'pyclifford/circuit.py::CliffordGate.copy#maps', ST + 'StabilizerState.sample', ST + 'stabilizer_state#list'] + ANY_GATE
+              RANDOM_STATE + RANDOM_CLIFFORD[:2] + CASTS + POLY_SEL + MBACK + ['pyclifford/circuit.py::CliffordGate.copy#generator', 'pyclifford/circuit.py::CliffordGate.copy#maps', ST + 'StabilizerState.sample', ST + 'stabilizer_state#list', ST + 'random_bit_state', ST + 'random_bit_state_gs_ps'] + ANY_GATE
 
 # every kernel that currently has a discharged contract (their frame.* obligations are the C17 frame conditions)
 MEASURE_LEMMAS = ['ordp_parity', 'xzpartial_full', 'selacq_map', 'selacq_image', 'partnersum_acq', 'transform_preserves_acq', 'acq_diff2', 'onsite_flat', 'acq_bilinear', 'acq_antisym', 'ipow_parity', 'ordg_bits', 'acq_zero', 'ordg_acq', 'selacq_gram', 'acqsum_ext',
@@ -171,13 +171,13 @@ def C11(run):
 
 def C12(run):
     run.deductive(keys=[U + 'map_to_state', U + 'state_to_map', ST + 'CliffordMap.to_state#r', ST + 'CliffordMap.to_state#none', ST + 'StabilizerState.to_map', ST + 'identity_map', U + 'stabilizer_project',
-                        ST + 'zero_state', ST + 'one_state', ST + 'maximally_mixed_state', ST + 'random_pauli_state#none', ST + 'random_pauli_state#r', ST + 'stabilizer_state#list'],
+                        ST + 'zero_state', ST + 'one_state', ST + 'maximally_mixed_state', ST + 'random_pauli_state#none', ST + 'random_pauli_state#r', ST + 'stabilizer_state#list', ST + 'random_bit_state', ST + 'random_bit_state_gs_ps'],
                   lemmas=['acq_bilinear', 'acq_antisym', 'acq_unit', 'acqsum_ext', 'map_state_roundtrip'])
     run.bounded_check('c12_states', _b().c12_states, Nmax=q(run, 3, 3), count=q(run, 20, 300))
     return 'other', ('deductive (all N): map_to_state / state_to_map are the exact row and phase permutations (Z-images -> stabilizers, '
                      'X-images -> destabilizers) and their composition is the identity on tables and signs (lemma map_state_roundtrip over the two contracts); CliffordMap.to_state turns the canonical commutation relations of a map into the tableau '
                      'structure of the state; identity_map satisfies them, so zero_state / maximally_mixed_state are the valid Z-basis tableaux; stabilizer_state(list), whenever it returns (ValueError allowed: partial correctness), '
-                     'returns a valid state of rank N - L whose active rows carry the given signs in order, and the given stabilizers commute pairwise '
+                     'returns a valid state of rank N - L whose active rows carry the given signs in order, and the given stabilizers commute pairwise; random_bit_state is the Z-basis tableau with signs +- for every draw '
                      'with all signs + and rank 0 / N, one_state the same tableau with all signs -; bounded: constructors, to_state/to_map round trip, to_qutip, stabilizer_state against dense matrices')
 
 
